@@ -1,5 +1,5 @@
 // C07 runtime tie: compile arbitrary text in a forked child under ASan/UBSan/LSan and check the error protocol.
-// line: <id> <S|B> <hex source> [I<name>=<hex content>]... [U<hex unit>]...   (units: added to the same compiler after the source, while errors == 0)        (S: yr_compiler_add_string, B: yr_compiler_add_bytes, F: yr_compiler_add_file, D: yr_compiler_add_fd)
+// line: <id> <S|B> <hex source> [I<name>=<hex content>]... [U<hex unit>]... [O<opts>] [N<hex file name>] [P<hex namespace>]   (units: added to the same compiler after the source, while errors == 0)        (S: yr_compiler_add_string, B: yr_compiler_add_bytes, F: yr_compiler_add_file, D: yr_compiler_add_fd)
 // out:  <id> ok errs=<ret> cb=<error callbacks> warn=<warning callbacks> msgok=<all messages non-empty> lineok=<all lines >= 1>
 //            l0=<callbacks with line < 1> l0eof=<of those, "unexpected end of file"> l0msg=<first other message with line < 1>
 //            rules=<got rules 0|1> scan=<rc of scanning a small buffer|-> destroy=1 follow=<ok|BAD...> kind=<first message, 3 words>
@@ -22,7 +22,9 @@ extern void __gcov_dump(void);   // coverage flavour (-DVERIF_COV --coverage): t
 typedef struct { int errs, warns, msgok, lineok, l0, l0eof; char first[96]; char l0msg[96]; } CB;
 typedef struct { char* name; char* content; } INC;
 static INC incs[64]; static int nincs;
-static char* units[16]; static int nunits;   // further compilation units added to the SAME compiler while no error occurred
+static char* units[16]; static int nunits;
+static char opts[16];          // O<letters>: s strict_escape, n include callback NULL (includes disabled), d default (file system) include callback, q atom quality table
+static char* fname; static char* nspace;   // N<hex> file name given to add_file/add_fd, P<hex> namespace given to every add_*   // further compilation units added to the SAME compiler while no error occurred
 
 static void ccb(int level, const char* file, int line, const YR_RULE* rule, const char* msg, void* ud)
 {
@@ -65,7 +67,11 @@ static void child(char mode, uint8_t* src, size_t len, int rfd)
   YR_COMPILER* comp = NULL; YR_RULES* rules = NULL;
   if (yr_compiler_create(&comp) != ERROR_SUCCESS) _exit(30);
   yr_compiler_set_callback(comp, ccb, &c);
-  yr_compiler_set_include_callback(comp, inc_cb, inc_free, NULL);
+  if (strchr(opts, 'n')) yr_compiler_set_include_callback(comp, NULL, NULL, NULL);
+  else if (!strchr(opts, 'd')) yr_compiler_set_include_callback(comp, inc_cb, inc_free, NULL);
+  if (strchr(opts, 's')) comp->strict_escape = true;
+  static const uint8_t aq[] = {0x00, 0x00, 0x00, 0x00, 10, 0x41, 0x41, 0x41, 0x41, 1, 0xff, 0xff, 0xff, 0xff, 255};   // 3 entries of 4 atom bytes + quality
+  if (strchr(opts, 'q')) yr_compiler_set_atom_quality_table(comp, aq, 3, 200);
   yr_compiler_define_integer_variable(comp, "ext_int", 5);
   yr_compiler_define_string_variable(comp, "ext_str", "hello");
   yr_compiler_define_boolean_variable(comp, "ext_bool", 1);
@@ -73,7 +79,7 @@ static void child(char mode, uint8_t* src, size_t len, int rfd)
   if (mode == 'F')        // yr_compiler_add_file on a stdio stream over the bytes
   {
     FILE* f = len ? fmemopen(src, len, "r") : fopen("/dev/null", "r");
-    errs = yr_compiler_add_file(comp, f, NULL, "mem.yar");
+    errs = yr_compiler_add_file(comp, f, nspace, fname ? (fname[0] ? fname : NULL) : "mem.yar");
     fclose(f);
   }
   else if (mode == 'D')   // yr_compiler_add_fd on an anonymous file holding the bytes
@@ -81,10 +87,10 @@ static void child(char mode, uint8_t* src, size_t len, int rfd)
     int fd = memfd_create("c07", 0);
     if (fd < 0 || write(fd, src, len) != (ssize_t) len) _exit(31);
     lseek(fd, 0, SEEK_SET);
-    errs = yr_compiler_add_fd(comp, fd, NULL, "fd.yar");
+    errs = yr_compiler_add_fd(comp, fd, nspace, fname ? (fname[0] ? fname : NULL) : "fd.yar");
     close(fd);
   }
-  else errs = (mode == 'B') ? yr_compiler_add_bytes(comp, src, len, NULL) : yr_compiler_add_string(comp, (const char*) src, NULL);
+  else errs = (mode == 'B') ? yr_compiler_add_bytes(comp, src, len, nspace) : yr_compiler_add_string(comp, (const char*) src, nspace);
   for (int u = 0; u < nunits && errs == 0; u++)   // yr_compiler_add_* may only be called again while the error count is 0 (it asserts so)
     errs = yr_compiler_add_string(comp, units[u], NULL);
   int lasterr = comp->last_error;   // error code behind the last callback
@@ -152,9 +158,12 @@ int main(int argc, char** argv)
     int n = split(line, t, 80);
     if (n < 3) continue;
     size_t len; uint8_t* src = unhex(t[2], &len);
-    nincs = 0; nunits = 0;
+    nincs = 0; nunits = 0; opts[0] = 0; free(fname); free(nspace); fname = nspace = NULL;
     for (int i = 3; i < n && nincs < 64; i++)
       if (t[i][0] == 'U' && nunits < 16) { size_t l3; units[nunits++] = (char*) unhex(t[i] + 1, &l3); }
+      else if (t[i][0] == 'O') snprintf(opts, sizeof opts, "%s", t[i] + 1);
+      else if (t[i][0] == 'N') { size_t l3; fname = (char*) unhex(t[i][1] ? t[i] + 1 : "-", &l3); }
+      else if (t[i][0] == 'P') { size_t l3; nspace = (char*) unhex(t[i] + 1, &l3); }
       else if (t[i][0] == 'I')
       {
         char* eq = strchr(t[i], '=');
